@@ -197,7 +197,17 @@ class Type1Tag(Tag):
                     logmsg = "unknown tlv {0} at offset {0}"
                     log.debug(logmsg.format(tlv_t, offset))
 
-                offset += tlv_l + 1 + (1 if tlv_l < 255 else 3)
+                # Advance to the next tlv. The length field format is
+                # determined by its first byte and value bytes do not
+                # occupy reserved memory.
+                if tlv_l < 0:
+                    offset += 1
+                else:
+                    offset += 4 if tag_memory[offset+1] == 0xFF else 2
+                    for i in range(tlv_l):
+                        while offset in skip_bytes:
+                            offset += 1
+                        offset += 1
 
             self._capacity = get_capacity(tag_memory_size, offset, skip_bytes)
             self._ndef_tlv_offset = offset
